@@ -115,6 +115,18 @@ Theorem c38_no_recheck_mutant_refuted :
 Proof. vm_compute. split; reflexivity. Qed.
 Print Assumptions c38_no_recheck_mutant_refuted.
 
+(** Regression witness for a dialer that re-resolves multi-address names: with a
+    vetted answer of two public records and a rebound second answer it connects
+    to 127.0.0.1, which [guarded_dial] (one resolution, dial by IP) never does. *)
+Theorem c38_multi_by_name_mutant_refuted :
+  let a1 := Some [[8;8;8;8]; [1;1;1;1]] in let a2 := Some [[127;0;0;1]] in
+  let reach := fun x => bytes_eqb x [127;0;0;1] in
+  dial_multi_by_name a1 a2 reach = [[127;0;0;1]] /\
+  guarded_dial false false (Some ([], [])) a1 reach = DTried [[8;8;8;8]; [1;1;1;1]] false /\
+  dial_multi_by_name (Some [[8;8;8;8]]) a2 reach = [[8;8;8;8]].
+Proof. vm_compute. repeat split; reflexivity. Qed.
+Print Assumptions c38_multi_by_name_mutant_refuted.
+
 (** Non-vacuity: the hypotheses are met by concrete non-trivial instances. *)
 Example c38_nonvacuous :
   addr_wf (V4 2851995902) /\ addr_internal (V4 2851995902) = true /\          (* 169.254.169.254 *)
